@@ -462,11 +462,9 @@ class SVG:
             svg.apply_style_attributes(inplace=True)
             return svg
 
-        if self.elements:
-            # if we already parsed the SVG shapes, apply style attrs and sync tree
-            for shape in self.shapes():
-                shape.apply_style_attribute(inplace=True)
-            self._update_etree()
+        # pending shape edits go to the tree first; styles are then applied there
+        # (cached shapes carry their ancestors' style, which must not override them)
+        self._update_etree()
 
         # parse all remaining style attributes (e.g. in gradients or root svg element)
         for el in itertools.chain((self.svg_root,), self.xpath("//svg:*[@style]")):
